@@ -298,6 +298,7 @@ def run_schedule(bits: str, sk: dict | None = None) -> dict:
     w._cache = {}
     w.most_recent_read_submit = None
     w.read_receipt_mutex = threading.Lock()
+    rs.autofill(w, [(Worker, ('__init__',))])
     root_addr = RuntimeAddress(-1, 0, 0)
     root = RuntimeTask((_parent, (), {}), root_addr, 0, tuple())
     boxes = {}
